@@ -1,7 +1,7 @@
 (* C04 - Read and write capabilities are enforced: only writers are heard, only readers are
    written to, and capabilities come from exactly the "read" and "write" scopes.
    Only statements, each closed by [exact] of a lemma proved in Proofs/Hub_proofs.v. *)
-From Relay Require Import Base.Prelude Model.Hub Proofs.Hub_proofs.
+From Relay Require Import Base.Prelude Model.Hub Proofs.Hub_proofs Proofs.Hub_more_proofs.
 
 (* a message arriving on a connection without the write capability changes nothing at all *)
 Theorem C04_nonwriter_noop :
@@ -58,6 +58,63 @@ Theorem C04_extra_scopes_add_nothing :
     caps (filter (fun sc => String.eqb sc "read" || String.eqb sc "write") scopes) = caps scopes.
 Proof. exact extra_scopes_add_nothing. Qed.
 Print Assumptions C04_extra_scopes_add_nothing.
+
+(* stated on the tokens. Every history: if every registration under name n came out of admission with a token WITHOUT the write scope, nothing from n is queued for, being written to or written to anybody *)
+Theorem C04_token_without_write_never_heard :
+  forall evs n,
+    (forall r, In (Register r) evs -> name r = n ->
+               exists rq, ws_accept rq = Some r /\ ~ In "write"%string (r_scopes rq)) ->
+    forall c m, In c (conns (run init evs)) -> In m (content c) -> m_name m <> n.
+Proof. exact token_without_write_never_heard. Qed.
+Print Assumptions C04_token_without_write_never_heard.
+
+(* every history: a connection all of whose registrations came out of admission with a token WITHOUT the read scope never has a frame written or opened *)
+Theorem C04_token_without_read_deaf :
+  forall evs c, In c (conns (run init evs)) ->
+    (forall r, In (Register r) evs -> name r = name c ->
+               exists rq, ws_accept rq = Some r /\ ~ In "read"%string (r_scopes rq)) ->
+    out c = [] /\ cur c = [].
+Proof. exact token_without_read_deaf. Qed.
+Print Assumptions C04_token_without_read_deaf.
+
+(* every history whose registrations all come out of admission: the hub never holds a connection that can neither read nor write *)
+Theorem C04_members_have_a_scope :
+  forall evs c,
+    (forall r, In (Register r) evs -> exists rq, ws_accept rq = Some r) ->
+    In c (conns (run init evs)) -> can_read c = true \/ can_write c = true.
+Proof. exact members_have_a_scope. Qed.
+Print Assumptions C04_members_have_a_scope.
+
+(* admission gives exactly the capabilities the token's scopes spell, and at least one *)
+Theorem C04_accept_caps :
+  forall rq r, ws_accept rq = Some r ->
+    (can_read r = true <-> In "read"%string (r_scopes rq)) /\
+    (can_write r = true <-> In "write"%string (r_scopes rq)) /\
+    (In "read"%string (r_scopes rq) \/ In "write"%string (r_scopes rq)).
+Proof. exact accept_caps. Qed.
+Print Assumptions C04_accept_caps.
+
+(* non-vacuity of the token-level theorems: a history of accepted registrations in which connection 2 (token: read and a look-alike of write) talks and connection 1 (token: write only) is sent to *)
+Example C04_token_witness :
+  let mk := fun n sc => match ws_accept (mkreq n "/session/t" "t" sc 2) with
+                        | Some c => c | None => mkclient 0 "" false false 0 [] [] [] Closed 0 end in
+  let h := [Register (mk 1 ["write"]); Register (mk 2 ["read"; "Write"]); Register (mk 3 ["read"; "write"]);
+            Recv 2 1 [20]; Recv 3 1 [30]; Take 1; Take 2; Close 2]%N%string in
+  (forall r, In (Register r) h -> name r = 2%N ->
+             exists rq, ws_accept rq = Some r /\ ~ In "write"%string (r_scopes rq)) /\
+  (forall r, In (Register r) h -> name r = 1%N ->
+             exists rq, ws_accept rq = Some r /\ ~ In "read"%string (r_scopes rq)) /\
+  map (fun c => (map (map m_data) (out c), length (queue c))) (conns (run init h)) = [([], O); ([[[30%N]]], O); ([], O)].
+Proof.
+  split; [|split].
+  - intros r [H|[H|[H|[H|[H|[H|[H|[H|[]]]]]]]]] Hn; try discriminate; injection H as <-; try discriminate Hn.
+    exists (mkreq 2 "/session/t" "t" ["read"; "Write"]%string 2). split; [reflexivity|].
+    intros [E|[E|[]]]; discriminate.
+  - intros r [H|[H|[H|[H|[H|[H|[H|[H|[]]]]]]]]] Hn; try discriminate; injection H as <-; try discriminate Hn.
+    exists (mkreq 1 "/session/t" "t" ["write"]%string 2). split; [reflexivity|].
+    intros [E|[]]; discriminate.
+  - vm_compute. reflexivity.
+Qed.
 
 (* non-vacuity: a write-only connection 1, a read-only connection 2 and a read-write connection 3
    on one topic, each accepted through ws_accept with an extra scope; what the read-only one
